@@ -56,6 +56,12 @@ var AllScenarios = func() []Scenario {
 			}
 		}
 	}
+	// equivocation on the unsigned build height (L=9)
+	for _, bump := range []bool{false, true} {
+		for _, x := range []pq{{0, 0, 0}, {0, 1, 0}, {0, 2, 0}, {0, 0, 1}, {0, 3, 0}} {
+			out = append(out, Scenario{Bump: bump, P: x.p, Q1: x.q1, Q2: x.q2, L: 9})
+		}
+	}
 	// usurpation (U=1): the Byzantine node is not the elected leader of the round but proposes with a replayed election certificate
 	// (the usurper completes its round / withholds its PRECOMMIT / lets its COMMIT reach nobody)
 	for _, l := range []int{3, 1} {
@@ -182,8 +188,8 @@ func OpsFor(in Info, reduced bool) []int {
 		if (s.L == 8 || s.J > 0) && in.NCerts == 0 {
 			continue
 		}
-		if s.L >= 5 && (s.L-5 >= in.NCerts || reduced) {
-			continue
+		if (s.L == 5 || s.L == 6) && (s.L-5 >= in.NCerts || reduced) {
+			continue // (this test used to read s.L >= 5 and silently disabled the leader modes 7 and 8 that were added later)
 		}
 		if s.L > 0 && s.V > 0 {
 			continue // the puppet already speaks for the Byzantine node
